@@ -259,6 +259,7 @@ def rule_padded_size_maintained(ck, m, rid):
 
 
 MUTANTS = [
+    M("close-zeroes-loop", IT, "RenderIterator.close", "            self._closed = True\n", "            self.loop = 0\n            self._closed = True\n", {"R8"}),
     M("guard-below-store", IT, "RenderIterator.set_frame_duration",
       "        if self._closed:\n            raise FinalizedIteratorError(\"This iterator has been finalized\") from None\n\n        if isinstance(duration, int) and duration <= 0:\n            raise arg_value_error_range(\"duration\", duration)\n\n        self._renderable_data.duration = duration\n",
       "        self._renderable_data.duration = duration\n        if self._closed:\n            raise FinalizedIteratorError(\"This iterator has been finalized\") from None\n\n        if isinstance(duration, int) and duration <= 0:\n            raise arg_value_error_range(\"duration\", duration)\n", {"R1", "R2"}),
